@@ -33,6 +33,7 @@ func c10(c *Ctx) {
 	c10R5(c)
 	c10R6(c)
 	c10R7(c)
+	ruleSandboxExited(c, "C10.R7")
 }
 
 // phaseSource resolves the object whose phase is the "from" phase of a store
